@@ -209,6 +209,8 @@ InitEp(role, cfg, maxClosed) ==
    penc |-> EncInit,            \* the harness peer's HPACK encoder (single-endpoint mode): it starts using a HEADER_TABLE_SIZE
                                 \* when it acknowledges the SETTINGS frame that carried it
    needPre |-> role = "s",      \* a server's frame buffer first expects the client preface
+   hb |-> <<>>,                 \* the frame parser's header-block buffer: <<>> or <<[first, n, nb]>> (first fragment, number of
+                                \* fragments so far, block octets so far)
    pend |-> <<>>,               \* received frames still in the input buffer: those behind the frame that made an earlier
                                 \* receive_data() raise (they are handled first by the next call)
    out |-> <<>>,                \* frames appended to the output buffer and not yet taken by data_to_send
@@ -763,6 +765,80 @@ Terminate(ep, code) ==
 Shift(ev, k) == IF "se" \in DOMAIN ev /\ "pu" \in DOMAIN ev
                 THEN [ev EXCEPT !.se = IF @ > 0 THEN @ + k ELSE @, !.pu = IF @ > 0 THEN @ + k ELSE @]
                 ELSE IF "se" \in DOMAIN ev THEN [ev EXCEPT !.se = IF @ > 0 THEN @ + k ELSE @] ELSE ev
+\* ---------------------------------------------------------------- the frame layer (hyperframe + h2.frame_buffer)
+\* A RAW frame is a frame as the bytes give it, before any rule has been applied:
+\*   typ, fl    type and flags octets            sid   stream id (31 bits)          len   payload length
+\*   pad        value of the first payload octet if the PADDED flag is set and len > 0, else -1
+\*   and what the payload holds as far as its length allows (the harness lays the payload out canonically and cuts it to len):
+\*   DATA tag; HEADERS pr (priority fields if flagged and present), bl = number of block octets, each the HPACK code for
+\*   ":method: GET" (gt is that field); PUSH_PROMISE pid, bl; CONTINUATION bl; PRIORITY w/dep/excl; RST code; SETTINGS s;
+\*   PING tag; GOAWAY last/code/tag; WINDOW_UPDATE inc; ALTSVC org/fld/olen.
+\* RawParse follows Frame.parse_frame_header, FrameBuffer._validate_frame_length and <Type>Frame.parse_body:
+\* k = "err" (x the exception; the frame is NOT removed from the input buffer) or k = "ok" (f the parsed frame).
+FDM == Exc("FrameDataMissingError", 6)
+FTL == Exc("FrameTooLargeError", 6)
+Bit(f, b) == (f.fl \div b) % 2 = 1
+RawErr(x) == [k |-> "err", x |-> x]
+RawOk(f) == [k |-> "ok", f |-> f]
+Max0(a) == IF a > 0 THEN a ELSE 0
+RawParse(f, lim) ==
+  LET padded == Bit(f, 8) IN
+  IF (f.typ \in {0, 1, 2, 3, 5, 9} /\ f.sid = 0) \/ (f.typ \in {4, 6, 7} /\ f.sid # 0) THEN RawErr(PE)
+  ELSE IF f.len > lim THEN RawErr(FTL)
+  ELSE CASE f.typ = 0 ->
+              IF padded /\ f.len = 0 THEN RawErr(FDM)
+              ELSE IF padded /\ f.pad # 0 /\ f.pad >= f.len THEN RawErr(PE)
+              ELSE RawOk(FData(f.sid, Bit(f, 1), IF padded THEN f.len - 1 - f.pad ELSE f.len, f.tag, IF padded THEN f.pad ELSE -1))
+         [] f.typ = 1 ->
+              LET l1 == IF padded THEN f.len - 1 ELSE f.len
+                  prio == Bit(f, 32)
+              IN IF padded /\ f.len = 0 THEN RawErr(FDM)
+                 ELSE IF prio /\ l1 < 5 THEN RawErr(FDM)
+                 ELSE IF padded /\ f.pad # 0 /\ f.pad >= l1 THEN RawErr(PE)
+                 ELSE RawOk([t |-> "FRAG", first |-> TRUE, kind |-> "HEADERS", sid |-> f.sid, es |-> Bit(f, 1), eh |-> Bit(f, 4),
+                             pr |-> IF prio THEN f.pr ELSE <<>>, pid |-> 0,
+                             nb |-> Max0(l1 - (IF padded THEN f.pad ELSE 0) - (IF prio THEN 5 ELSE 0))])
+         [] f.typ = 5 ->
+              LET pd == IF padded THEN 1 ELSE 0 IN
+              IF padded /\ f.len = 0 THEN RawErr(FDM)
+              ELSE IF f.len - pd < 4 THEN RawErr(FDM)
+              ELSE IF f.pid = 0 \/ f.pid % 2 = 1 THEN RawErr(PE)
+              ELSE IF padded /\ f.pad # 0 /\ f.pad >= f.len THEN RawErr(PE)
+              ELSE RawOk([t |-> "FRAG", first |-> TRUE, kind |-> "PP", sid |-> f.sid, es |-> FALSE, eh |-> Bit(f, 4), pr |-> <<>>,
+                          pid |-> f.pid, nb |-> Max0(f.len - pd - 4 - (IF padded THEN f.pad ELSE 0))])
+         [] f.typ = 9 -> RawOk([t |-> "FRAG", first |-> FALSE, kind |-> "CONT", sid |-> f.sid, es |-> FALSE, eh |-> Bit(f, 4),
+                                pr |-> <<>>, pid |-> 0, nb |-> f.len])
+         [] f.typ = 2 -> IF f.len # 5 THEN RawErr(FDM) ELSE RawOk(FPrio(f.sid, f.w, f.dep, f.excl))
+         [] f.typ = 3 -> IF f.len # 4 THEN RawErr(FDM) ELSE RawOk(FRst(f.sid, f.code))
+         [] f.typ = 4 -> IF Bit(f, 1) /\ f.len > 0 THEN RawErr(PE)
+                         ELSE IF f.len % 6 # 0 THEN RawErr(FDM)
+                         ELSE RawOk(IF Bit(f, 1) THEN FSettingsAck ELSE FSettings(f.s))
+         [] f.typ = 6 -> IF f.len # 8 THEN RawErr(FDM) ELSE RawOk(FPing(Bit(f, 1), f.tag))
+         [] f.typ = 7 -> IF f.len < 8 THEN RawErr(FDM) ELSE RawOk(FGoAway(f.last, f.code, f.tag))
+         [] f.typ = 8 -> IF f.len # 4 THEN RawErr(FDM) ELSE IF f.inc <= 0 THEN RawErr(PE) ELSE RawOk(FWU(f.sid, f.inc))
+         [] f.typ = 10 -> IF f.len < 2 \/ 2 + f.olen > f.len THEN RawErr(FDM) ELSE RawOk(FAlt(f.sid, f.org, f.fld))
+         [] OTHER -> RawOk([t |-> "UNKNOWN", sid |-> f.sid])
+
+\* FrameBuffer._update_header_buffer on a parsed frame: k = "err" (consumed), "hold" (buffered), "frame" (f to dispatch)
+BlockOf(gt, n) == [i \in 1..n |-> gt]
+Jumbo(first, nb, gt) ==
+  IF first.kind = "HEADERS"
+  THEN [t |-> "HEADERS", sid |-> first.sid, es |-> first.es, h |-> BlockOf(gt, nb), pr |-> first.pr, blk |-> "ok", tsu |-> <<>>]
+  ELSE [t |-> "PP", sid |-> first.sid, pid |-> first.pid, h |-> BlockOf(gt, nb), blk |-> "ok", tsu |-> <<>>]
+HeaderBuffer(ep, g, gt) ==
+  IF ep.hb # <<>>
+  THEN LET b == ep.hb[1] IN
+       IF ~(g.t = "FRAG" /\ g.kind = "CONT" /\ g.sid = b.first.sid) THEN [k |-> "err", ep |-> ep]
+       ELSE LET b2 == [b EXCEPT !.n = @ + 1, !.nb = @ + g.nb] IN
+            IF b2.n > 64 THEN [k |-> "err", ep |-> [ep EXCEPT !.hb = <<b2>>]]
+            ELSE IF g.eh THEN [k |-> "frame", ep |-> [ep EXCEPT !.hb = <<>>], f |-> Jumbo(b2.first, b2.nb, gt)]
+            ELSE [k |-> "hold", ep |-> [ep EXCEPT !.hb = <<b2>>]]
+  ELSE IF g.t = "FRAG" /\ g.first
+  THEN IF g.eh THEN [k |-> "frame", ep |-> ep, f |-> Jumbo(g, g.nb, gt)]
+       ELSE [k |-> "hold", ep |-> [ep EXCEPT !.hb = <<[first |-> g, n |-> 1, nb |-> g.nb]>>]]
+  ELSE IF g.t = "FRAG" THEN [k |-> "frame", ep |-> ep, f |-> [t |-> "CONT", sid |-> g.sid]]        \* a naked CONTINUATION
+  ELSE [k |-> "frame", ep |-> ep, f |-> g]
+
 \* FrameBuffer: a frame longer than the limit is a FRAME_SIZE_ERROR.  Only DATA frames can be that long here (every
 \* other frame of the scenarios is short; long header blocks travel in CONTINUATION frames).  The limit is copied
 \* from max_inbound_frame_size once per receive_data() call: a MAX_FRAME_SIZE change acknowledged by an earlier frame
@@ -775,6 +851,16 @@ ReceiveLoop(ep, fs, evs, lim) ==
   THEN \* refused by the frame parser: the frame is not even removed from the buffer
        LET e1 == IF FrameLen(fs[1]) > ep.mif THEN ep ELSE Mark(ep, "frame_size_limit_snapshot")
        IN [ep |-> [Terminate(e1, 6) EXCEPT !.pend = fs], r |-> Exc("FrameTooLargeError", 6), ev |-> <<>>]
+  ELSE IF fs[1].t = "RAW"
+  THEN LET p == RawParse(fs[1], lim) IN
+       IF p.k = "err" THEN [ep |-> [Terminate(ep, p.x.e) EXCEPT !.pend = fs], r |-> p.x, ev |-> <<>>]
+       ELSE LET hbr == HeaderBuffer(ep, p.f, fs[1].gt) IN
+            IF hbr.k = "err" THEN [ep |-> [Terminate(hbr.ep, 1) EXCEPT !.pend = Tail(fs)], r |-> PE, ev |-> <<>>]
+            ELSE IF hbr.k = "hold" THEN ReceiveLoop(hbr.ep, Tail(fs), evs, lim)
+            ELSE ReceiveLoop(hbr.ep, <<hbr.f>> \o Tail(fs), evs, lim)
+  ELSE IF ep.hb # <<>> /\ fs[1].t # "PREFACE"
+  THEN \* any other frame while a header block is being collected: refused by the frame buffer after it was removed
+       [ep |-> [Terminate(ep, 1) EXCEPT !.pend = Tail(fs)], r |-> PE, ev |-> <<>>]
   ELSE IF fs[1].t = "PREFACE"
   THEN \* the 24 octets of a client preface read as a frame header announce a frame of 0x505249 octets; the length is only
        \* checked once a whole frame is buffered, so the parser waits for the rest and nothing behind it is ever looked at
@@ -865,6 +951,14 @@ Queries(ep, qsids) ==
 \* ---------------------------------------------------------------- projection of the whole abstract state
 \* Compared after every step with the same projection read (read-only) from the real objects, so that a step that
 \* leaves the code in a different state than the model is noticed at that step, not only when a later step shows it.
+\* frames in the input buffer, a header block (HEADERS / PUSH_PROMISE without END_HEADERS + its CONTINUATIONs) counted once
+RECURSIVE PendCount(_, _)
+PendCount(fs, open) ==
+  IF fs = <<>> THEN 0
+  ELSE LET f == fs[1]
+           raw == f.t = "RAW"
+       IN IF open /\ raw /\ f.typ = 9 THEN PendCount(Tail(fs), ~Bit(f, 4))
+          ELSE 1 + PendCount(Tail(fs), raw /\ f.typ \in {1, 5} /\ ~Bit(f, 4))
 ZStream(sid, s) == [sid |-> sid, st |-> s.st, cl |-> s.cl, hs |-> s.hs, ts |-> s.ts, hr |-> s.hr, tr |-> s.tr, by |-> s.by,
                     ow |-> s.ow, iw |-> <<s.iw.cur, s.iw.max, s.iw.bp>>,
                     ecl |-> IF s.eclSet THEN <<s.ecl>> ELSE <<>>, acl |-> s.acl, meth |-> s.meth, auth |-> s.auth]
@@ -873,6 +967,7 @@ Z(ep) == [conn |-> ep.conn, hiIn |-> ep.hiIn, hiOut |-> ep.hiOut, ow |-> ep.ow, 
           streams |-> [i \in 1..Len(ep.sord) |-> ZStream(ep.sord[i], ep.streams[ep.sord[i]])],
           closed |-> [i \in 1..Len(ep.closed) |-> <<ep.closed[i].sid, ep.closed[i].by>>],
           ls |-> ZSettings(ep.ls), rs |-> ZSettings(ep.rs), hdrCap |-> ep.hdrCap,
+          hb |-> IF ep.hb = <<>> THEN 0 ELSE ep.hb[1].n,
           hp |-> <<ep.enc.size, ep.enc.rz, ep.enc.ch, ep.decSize, ep.decMax>>,
-          pend |-> Len(ep.pend)]
+          pend |-> PendCount(ep.pend, FALSE)]
 =============================================================================
